@@ -315,6 +315,8 @@ enum Members {
     FieldAll(&'static str),
     /// every message has a oneof with one member field
     OneofAll { oneof: &'static str, field: &'static str },
+    /// every message has a proto3 `optional` field: the field plus its synthetic oneof `_<field>`
+    OptionalAll { field: &'static str, synthetic: &'static str },
     /// only the first message (pre-order) has a plain field and a oneof
     FirstOnly { field: &'static str, oneof: &'static str },
     /// only the last message (pre-order) has a plain field and a oneof
@@ -426,6 +428,7 @@ impl FileSpec {
                 Members::None => (None, None, false),
                 Members::FieldAll(f) => (Some(f), None, false),
                 Members::OneofAll { oneof, field } => (Some(field), Some(oneof), true),
+                Members::OptionalAll { field, synthetic } => (Some(field), Some(synthetic), true),
                 Members::FirstOnly { field, oneof } if my == 0 => (Some(field), Some(oneof), false),
                 Members::LastOnly { field, oneof } if my + 1 == cx.total => (Some(field), Some(oneof), false),
                 _ => (None, None, false),
@@ -446,6 +449,7 @@ impl FileSpec {
                     r#type: Some(ty),
                     type_name,
                     oneof_index: if inside { Some(0) } else { None },
+                    proto3_optional: if matches!(cx.mem, Members::OptionalAll { .. }) { Some(true) } else { None },
                     ..Default::default()
                 });
             }
@@ -536,6 +540,7 @@ fn members(tier: Tier, pairs: bool) -> Vec<Members> {
         Members::FieldAll("a"),
         Members::OneofAll { oneof: "b", field: "a" },
         Members::FirstOnly { field: "A", oneof: "a" },
+        Members::OptionalAll { field: "a", synthetic: "_a" },
     ];
     if tier == Tier::Thorough {
         v.push(Members::LastOnly { field: "B", oneof: "A" });
@@ -1503,7 +1508,7 @@ pub fn property(tier: Tier) -> Property {
     let s1 = Section::new(
         "single-file",
         cfg(),
-        &format!("cases: every file of the grammar package in {{none,p,p.q,present-but-empty}} x message forest (nesting <= {}) x members (field / oneof+member / first-only / last-only) x enum (none / top-level / nested in first / nested in deepest message; 1-2 values) x service (none / 1-2 methods), names from {{A,B,a,b}} (nested enums also C/c), sets declaring a name twice skipped; x registration (decoded, encoded, twice in two sets{}) x with_service_name (never / undeclared+last declared{}) x include_reflection_service. {rule_tail}", tier.q(2, 3), tier.q("", ", twice in one set, twice encoded"), tier.q("", " / first declared")),
+        &format!("cases: every file of the grammar package in {{none,p,p.q,present-but-empty}} x message forest (nesting <= {}) x members (field / oneof+member / proto3-optional field with its synthetic oneof / first-only / last-only) x enum (none / top-level / nested in first / nested in deepest message; 1-2 values) x service (none / 1-2 methods), names from {{A,B,a,b}} (nested enums also C/c), sets declaring a name twice skipped; x registration (decoded, encoded, twice in two sets{}) x with_service_name (never / undeclared+last declared{}) x include_reflection_service. {rule_tail}", tier.q(2, 3), tier.q("", ", twice in one set, twice encoded"), tier.q("", " / first declared")),
         singles,
         describe,
         body,
